@@ -1,4 +1,5 @@
 import GrolProofs.EvalOps
+import GrolProofs.EvalFrame
 import Grol.Eval.Session
 /-
 C10 — a failed input leaves no trace in the session.
@@ -8,20 +9,24 @@ and `Reset` of `repl.EvalOne`) iterated on one persistent `St`.  Proved here, fo
 programs and continuations:
 
 * `C10.runInput_congr` / `C10.runInputs_congr`: an input's observation and successor state are a
-  function of the session state *up to the writer stack and the step counter* (`≈`).  These are
-  exactly the two fields a failing input can leave dirty without any side effect of the program (the
-  private buffers of the calls that were active when the evaluation was abandoned, the consumed
-  evaluation context), and `EvalOne` re-installs both at the start of every input.
+  function of the session state *up to the writer stack and the step counter* (`≈` = `SameSession`).
+  These are exactly the two fields a failing input can leave dirty without any side effect of the
+  program (the private buffers of the calls that were active when the evaluation was abandoned, the
+  consumed evaluation context), and `EvalOne` re-installs both at the start of every input.
 * `C10.next_input_fresh_writer`: whatever an input left, the next one starts on a single fresh writer.
-* `C10.reset_abnormal`: after an input that ends in a Go panic or in the depth guard the scope is the
-  root scope and the depth is 0.
-* `C10.no_trace_same_heap`: if the failing input's final state has the heap and cache it started
-  with (and the three fields no evaluation writes: cfg, root, extension names) and the session was at
-  top level, every continuation of inputs produces identical observations with and without it.
+* `C10.reset_abnormal`: after a Go panic or the depth guard scope = root and depth = 0, from any state.
+* `C10.reset`: from a top-level state, after ANY input the model does not decline (normal, error, Go
+  panic, depth guard) the session is at top level again.  Uses `eval_restores` / `eval_keeps`
+  (GrolProofs/EvalFrame.lean: induction over the whole mutual block of the evaluator).
+* `C10.runInput_keeps`: no input changes the configuration, the root pointer, the extension names.
+* `C10.no_trace`: from a top-level state, an input whose final state has the heap and the cache it
+  started with leaves no trace: every continuation produces identical observations with and without it.
 
 The full statement `C10.Statement` (the heap may have grown by unreachable frames, miss counters
-may differ) is stated below and NOT proved here: it needs a heap-renaming bisimulation over the whole
-evaluator; it is what the `session` correspondence suite checks on the real `repl.EvalOne`.
+may differ; cache unchanged) is stated below and NOT proved: it needs a heap-extension bisimulation
+over the whole evaluator.  It is what the `session` correspondence suite checks on the real
+`repl.EvalOne`.  Without the cache hypothesis the statement is false of model and code alike (listed
+finding `failed-input-leaves-cached-mutable-result`).
 -/
 namespace Grol.E
 
@@ -126,5 +131,134 @@ theorem C10.reset_abnormal (st : St) (p : Node) (o : InputObs)
       | depthGuard => exact ⟨rfl, rfl⟩
       | fuel => cases h
       | unmodelled w => cases h
+
+/-- no input ever changes the configuration, the root scope pointer or the extension names, whatever its
+outcome (from `eval_keeps`, induction over the whole evaluator) -/
+theorem C10.runInput_keeps (st : St) (p : Node) : Keeps st (runInput st p).1 := by
+  rw [runInput_eq]
+  by_cases hm : mentions unmodelledRootNames p = true
+  · rw [if_pos hm]; exact ⟨rfl, rfl, rfl⟩
+  · rw [if_neg hm]
+    have k := eval_keeps defaultFuel p (startInput st)
+    have k' : Keeps st (stateAfter (eval defaultFuel p) (startInput st)) := ⟨k.cfg, k.root, k.extNames⟩
+    cases outcome (eval defaultFuel p) (startInput st) with
+    | ok v => exact k'
+    | error e =>
+      cases e with
+      | goPanic s => exact ⟨k'.cfg, k'.root, k'.extNames⟩
+      | depthGuard => exact ⟨k'.cfg, k'.root, k'.extNames⟩
+      | fuel => exact k'
+      | unmodelled w => exact k'
+
+/-- **Reset.**  From a top-level state, after ANY input the model does not decline — normal result,
+error result, Go panic, depth guard — the session is at top level again: scope = root scope, depth 0.
+Abnormal ends: by the explicit reset in the recover; normal returns (error objects included): the
+evaluator restores scope and depth itself (`eval_restores`, induction over the whole evaluator). -/
+theorem C10.reset (st : St) (p : Node) (o : InputObs) (hTop : AtTop st)
+    (h : (runInput st p).2 = .ok o) : AtTop (runInput st p).1 := by
+  by_cases hp : o.panic = "-"
+  · rw [runInput_eq] at h ⊢
+    by_cases hm : mentions unmodelledRootNames p = true
+    · rw [if_pos hm] at h; cases h
+    · rw [if_neg hm] at h ⊢
+      have k := eval_keeps defaultFuel p (startInput st)
+      cases hr : outcome (eval defaultFuel p) (startInput st) with
+      | ok v =>
+        have r := eval_restores defaultFuel p (startInput st) v hr
+        show AtTop (stateAfter (eval defaultFuel p) (startInput st))
+        exact ⟨by rw [r.1, k.root]; exact hTop.1, by rw [r.2]; exact hTop.2⟩
+      | error e =>
+        rw [hr] at h
+        cases e with
+        | goPanic s => exact ⟨rfl, rfl⟩
+        | depthGuard => exact ⟨rfl, rfl⟩
+        | fuel => cases h
+        | unmodelled w => cases h
+  · exact C10.reset_abnormal st p o h hp
+
+/-! ### no trace -/
+
+/-- **No trace, same heap.**  If the state a (failing) input leaves is `≈` the state it started from —
+same heap, cache, scope, depth and configuration; the writer stack and the step counter may differ
+arbitrarily — then every continuation of inputs produces exactly the observations it produces
+without that input. -/
+theorem C10.no_trace_of_same {st : St} {f : Node} (h : SameSession (runInput st f).1 st) (ps : List Node) :
+    runInputs (runInput st f).1 ps = runInputs st ps :=
+  C10.runInputs_congr h ps
+
+/-- **No trace.**  From a top-level state, an input (failing or not) whose final state has the heap
+and the cache it started with leaves no trace: every continuation of inputs produces exactly the
+observations it produces without it.  Scope and depth are supplied by `C10.reset`, configuration, root
+pointer and extension names by `C10.runInput_keeps`; writer stack and step counter are irrelevant by
+`C10.runInputs_congr`. -/
+theorem C10.no_trace (st : St) (f : Node) (o : InputObs) (hTop : AtTop st)
+    (hf : (runInput st f).2 = .ok o)
+    (hframes : (runInput st f).1.frames = st.frames) (hcache : (runInput st f).1.cache = st.cache)
+    (ps : List Node) :
+    runInputs (runInput st f).1 ps = runInputs st ps := by
+  have hr := C10.reset st f o hTop hf
+  have hk := C10.runInput_keeps st f
+  apply C10.no_trace_of_same
+  rw [sameSession_iff]
+  exact ⟨hk.cfg, hframes, by rw [hr.1, hk.root, hTop.1], hk.root, by rw [hr.2, hTop.2], hcache, hk.extNames⟩
+
+/-- top level is an invariant of the session: it holds initially … -/
+theorem C10.atTop_init (cfg : Cfg) : AtTop (initState cfg) := ⟨rfl, rfl⟩
+
+/-! ### non-vacuity: concrete evaluations checked by the kernel
+
+(`runInput` itself starts with a test written as a `partial def`, which the kernel cannot unfold; the
+examples are about its second half `finishInput`, see `runInput_eq`.) -/
+
+/-- `1 + "a"` -/
+def C10.errProg : Node := .stmts [.inf "PLUS" (.int 1) (.str [97])]
+/-- `f()` with the depth limit at 0: the guard fires at top level, inside the nested `Eval` of the callee -/
+def C10.deepProg : Node := .stmts [.call (.ident "f") []]
+
+/-- a failing input (error result) with the heap and the cache it started with: the hypotheses of
+`C10.no_trace` are met -/
+example :
+    let st := startInput (initState {})
+    let r := finishInput (outcome (eval defaultFuel C10.errProg) st) (stateAfter (eval defaultFuel C10.errProg) st)
+    r.2.toOption.map (·.isErr) = some true ∧ r.1.frames = st.frames ∧ r.1.cache = st.cache := by
+  refine ⟨rfl, rfl, rfl⟩
+
+/-- the depth guard leaves the depth counter at 1: the evaluation itself does NOT restore it, the
+recover's reset does -/
+example :
+    let st := startInput (initState { maxDepth := 0 })
+    outcome (eval defaultFuel C10.deepProg) st = .error .depthGuard ∧
+    (stateAfter (eval defaultFuel C10.deepProg) st).depth = 1 ∧
+    (finishInput (outcome (eval defaultFuel C10.deepProg) st) (stateAfter (eval defaultFuel C10.deepProg) st)).1.depth = 0 := by
+  refine ⟨rfl, rfl, rfl⟩
+
+/-! ### the full statement (not proved here) -/
+
+/-- a reachable session state -/
+def C10.Reachable (st : St) : Prop :=
+  ∃ (cfg : Cfg) (progs : List Node), st = progs.foldl (fun s p => (runInput s p).1) (initState cfg)
+
+/-- `st'` extends the heap of `st` by frames only: every frame of `st` is still there with the same
+bindings, parent and function (miss counters, the can't-cache flag and the set counter may differ) -/
+def C10.HeapExtends (st st' : St) : Prop :=
+  st.frames.size ≤ st'.frames.size ∧
+  ∀ i (h : i < st.frames.size) (h' : i < st'.frames.size),
+    (st'.frames[i]).store = (st.frames[i]).store ∧ (st'.frames[i]).outer = (st.frames[i]).outer ∧
+    (st'.frames[i]).depth = (st.frames[i]).depth ∧ (st'.frames[i]).cacheKey = (st.frames[i]).cacheKey
+
+/-- what the user sees of an input: output, value, error flag, panic kind -/
+def C10.visible (r : Except String InputObs) : Except String (Grol.Wire.Bytes × String × Bool × String) :=
+  r.map fun o => (o.out, o.val, o.isErr, o.panic)
+
+/-- **C10, full strength, about the model**: from any reachable top-level state, an input that fails
+(error result, Go panic or depth guard) having written nothing (no output; every existing frame keeps
+its bindings — new, unreachable frames and miss counters are allowed; the cache keeps its entries) is
+invisible to every continuation of inputs. -/
+def C10.Statement : Prop :=
+  ∀ (st : St) (f : Node) (o : InputObs) (ps : List Node),
+    C10.Reachable st → AtTop st →
+    (runInput st f).2 = .ok o → (o.isErr = true ∨ o.panic ≠ "-") → o.out = [] →
+    C10.HeapExtends st (runInput st f).1 → (runInput st f).1.cache = st.cache →
+    (runInputs (runInput st f).1 ps).map C10.visible = (runInputs st ps).map C10.visible
 
 end Grol.E
